@@ -12,6 +12,7 @@ import (
 	"sort"
 	"strconv"
 	"strings"
+	"sync"
 
 	"github.com/jirenius/go-res/store"
 	"github.com/jirenius/go-res/store/badgerstore"
@@ -82,12 +83,12 @@ type IndexScenario struct{}
 
 func (IndexScenario) Name() string { return "index" }
 
-var idxKeys = []string{"a", "ab", "abc", "b", "ba", "a:b", "", "", "B", "a b"}
+var idxKeys = []string{"a", "ab", "abc", "b", "ba", "a:b", "", "", "B", "a b", "aÿ", "aÿÿ", "bÿ"}
 var idxIDs = []string{"1", "2", "33", "4.4", "a", "ab"}
 
 func genIdxQuery(r *rand.Rand) IdxQuery {
 	q := IdxQuery{Index: pick(r, "k", "k", "n")}
-	q.Prefix = pick(r, "", "", "a", "ab", "abc", "abcd", "b", "a\x00", "a\x001", "\x00", "a:", "zz", "B", "a ")
+	q.Prefix = pick(r, "", "", "a", "ab", "abc", "abcd", "b", "a\x00", "a\x001", "\x00", "a:", "zz", "B", "a ", "aÿ", "ÿ")
 	q.Filter = pick(r, "", "", "hasb", "evenlen")
 	q.Offset = pick(r, 0, 0, 1, 2, 5)
 	q.Limit = pick(r, -1, -1, 0, 1, 2, 3, 10)
@@ -185,7 +186,7 @@ func (IndexScenario) Shrinks(ci interface{}) []interface{} {
 }
 
 func (q IdxQuery) values() url.Values {
-	return url.Values{"idx": {q.Index}, "prefix": {q.Prefix}, "filter": {q.Filter}, "offset": {strconv.Itoa(q.Offset)}, "limit": {strconv.Itoa(q.Limit)}, "reverse": {strconv.FormatBool(q.Reverse)}}
+	return url.Values{"idx": {q.Index}, "prefix": {string(rawKey(q.Prefix))}, "filter": {q.Filter}, "offset": {strconv.Itoa(q.Offset)}, "limit": {strconv.Itoa(q.Limit)}, "reverse": {strconv.FormatBool(q.Reverse)}}
 }
 
 func idxFilter(name string) func([]byte) bool {
@@ -198,6 +199,12 @@ func idxFilter(name string) func([]byte) bool {
 	return nil
 }
 
+// rawKey turns the key or prefix of a case into the bytes it stands for: the
+// letter ÿ is written for the byte 0xFF, which no JSON string can hold.
+func rawKey(s string) []byte {
+	return []byte(strings.ReplaceAll(s, "ÿ", "\xff"))
+}
+
 func idxKeyOf(index string, v *idxRec) []byte {
 	if v == nil {
 		return nil
@@ -206,17 +213,29 @@ func idxKeyOf(index string, v *idxRec) []byte {
 		if v.K == "" {
 			return nil
 		}
-		return []byte(v.K)
+		return rawKey(v.K)
 	}
-	return []byte(v.N)
+	return rawKey(v.N)
 }
 
 func newIdxQueryStore(st *badgerstore.Store) *badgerstore.QueryStore {
+	// the index queries are kept and handed out again for the same query
+	// (a table of named views): a fetch must not use up the query it is given
+	var mu sync.Mutex
+	views := map[string]*badgerstore.IndexQuery{}
 	qs := badgerstore.NewQueryStore(st, func(qs *badgerstore.QueryStore, q url.Values) (*badgerstore.IndexQuery, error) {
+		mu.Lock()
+		defer mu.Unlock()
+		key := q.Encode()
+		if iq := views[key]; iq != nil {
+			return iq, nil
+		}
 		off, _ := strconv.Atoi(q.Get("offset"))
 		lim, _ := strconv.Atoi(q.Get("limit"))
-		return &badgerstore.IndexQuery{Index: qs.Index(q.Get("idx")), KeyPrefix: []byte(q.Get("prefix")), FilterKeys: idxFilter(q.Get("filter")),
-			Offset: off, Limit: lim, Reverse: q.Get("reverse") == "true"}, nil
+		iq := &badgerstore.IndexQuery{Index: qs.Index(q.Get("idx")), KeyPrefix: []byte(q.Get("prefix")), FilterKeys: idxFilter(q.Get("filter")),
+			Offset: off, Limit: lim, Reverse: q.Get("reverse") == "true"}
+		views[key] = iq
+		return iq, nil
 	})
 	qs.AddIndex(badgerstore.Index{Name: "k", Key: func(v interface{}) []byte {
 		r := v.(idxRec)
@@ -241,7 +260,7 @@ func refQuery(state map[string]*idxRec, q IdxQuery) []string {
 		if k == nil {
 			continue
 		}
-		if !bytes.HasPrefix(k, []byte(q.Prefix)) {
+		if !bytes.HasPrefix(k, rawKey(q.Prefix)) {
 			continue
 		}
 		if f != nil && !f(k) {
@@ -675,7 +694,7 @@ func (ir *idxRun) onQueryChange(qc store.QueryChange) {
 		f := idxFilter(q.Filter)
 		match := func(v *idxRec) bool {
 			k := idxKeyOf(q.Index, v)
-			return k != nil && bytes.HasPrefix(k, []byte(q.Prefix)) && (f == nil || f(k))
+			return k != nil && bytes.HasPrefix(k, rawKey(q.Prefix)) && (f == nil || f(k))
 		}
 		if strings.Join(rb, ",") != strings.Join(ra, ",") && !reset {
 			ir.h.Violate("C14", "affected-query-not-reported", "", fmt.Sprintf("change of id %q from %+v to %+v changes the result of %+v from %q to %q but Events reports it unaffected", qc.ID(), b, a, q, rb, ra))
